@@ -1269,3 +1269,11 @@ def _prim_default(eng, st, args, dty, callee, m):
         return z3.FPVal(0.0, z3.Float64())
     w = {"u8": 8, "i8": 8, "u16": 16, "i16": 16, "u32": 32, "i32": 32, "u64": 64, "i64": 64, "usize": 64, "isize": 64, "u128": 128, "i128": 128}[t]
     return bv(0, w)
+
+
+@summary(r"^std::time::SystemTime::elapsed$", "SystemTime::elapsed -> Ok(now - self) if now >= self else Err(opaque)")
+def _sys_elapsed(eng, st, args, dty, callee, m):
+    now = _systime_now(eng, st, [], None, callee, m)
+    a = deref(eng, st, args[0])
+    ge = time_le(a, now)
+    return VEnum(RESULT, z3.If(ge, bv(0, 8), bv(1, 8)), {0: (time_sub(now, a),), 1: (VOpaque("SystemTimeError"),)})
